@@ -1354,7 +1354,7 @@ func clauseIsInternal(c *Contract, e Expr, depth int) bool {
 		return clauseIsInternal(c, e.X, depth) || clauseIsInternal(c, e.Y, depth)
 	case ECall:
 		switch e.Fun {
-		case "calls", "callResult", "callArg", "lastResult", "at", "local", "held":
+		case "calls", "callResult", "callArg", "lastResult", "at", "reached", "local", "held":
 			return true
 		}
 		for _, a := range e.Args {
